@@ -1,12 +1,14 @@
 /- Line protocol: one JSON request per line on stdin, one JSON answer per line on stdout. -/
 import PflDrv.FA
 import PflDrv.CFG
+import PflDrv.PDA
 open Lean PflDrv
 
 def dispatch (j : Json) : R Json := do
   let op ← asStr (← field j "op")
   if op.startsWith "fa." then faHandle op j
   else if op.startsWith "cfg." then cfgHandle op j
+  else if op.startsWith "pda." then pdaHandle op j
   else if op == "ping" then pure (Json.str "pong")
   else throw s!"unknown op {op}"
 
